@@ -588,10 +588,23 @@ func (s *Stream) CloseRead() {
 	} else {
 		s.inclosed.set()
 	}
-	discarded := s.in.end - s.in.start
+	// Bytes in the fast-path read buffer have already been returned as flow control.
+	discarded := s.in.end - s.in.start - s.dropInbufLocked()
 	s.in.discardBefore(s.in.end)
 	s.inUnlock()
 	s.conn.handleStreamBytesReadOffLoop(discarded) // must be done with ingate unlocked
+}
+
+// dropInbufLocked discards the fast-path read buffer and returns its size.
+// The caller holds ingate and is about to discard the contents of s.in;
+// a later Read must not apply the stale s.inbufoff to the new s.in.start.
+func (s *Stream) dropInbufLocked() int64 {
+	s.inbufmu.Lock()
+	defer s.inbufmu.Unlock()
+	n := int64(len(s.inbuf))
+	s.inbuf = nil
+	s.inbufoff = 0
+	return n
 }
 
 // CloseWrite aborts writes on the stream.
@@ -848,7 +861,7 @@ func (s *Stream) handleReset(code uint64, finalSize int64) error {
 			return err
 		}
 	}
-	s.conn.handleStreamBytesReadOnLoop(finalSize - s.in.start)
+	s.conn.handleStreamBytesReadOnLoop(finalSize - s.in.start - s.dropInbufLocked())
 	s.in.discardBefore(s.in.end)
 	s.inresetcode = int64(code)
 	s.insize = finalSize
